@@ -45,6 +45,9 @@ STRUCTURAL = {
     "undef-symbol-inferred": "lda nosuchsymbol",
     "undef-macro": "nosuchmacro(1)",
     "missing-macro-arg": ".macro two(a, b) {\n.db a, b\n}\ntwo(1)",
+    # the offending argument is bound to a parameter that the body never reads / reads only in a branch not taken
+    "undef-symbol-unused-macro-arg": ".macro unusedp(x) {\nnop\n}\nunusedp(nosuchsymbol)",
+    "undef-symbol-unused-macro-arg-expr": ".macro unusede(x, y) {\n.db y\n}\nunusede(nosuchsymbol + 1, 2)",
     "bad-mode-index": "lda (0x10),x",
     "bad-mode-immediate": "stx #1",
     "bad-mode-long": "ldx.l 0x123456",
